@@ -229,8 +229,8 @@ def run(ctx):
     seeds.append(bundle('b2', b'https://example.com/', None, f'{k["cert"]}:{hexs(b"o")}:nil/0:{hexs(b"sig")}:{hexs(b"signed")}', [exch(b'https://example.com/', 200, [], b'x')]))
     res, _ = ctx.both([f'bundle.write {b}' for b in seeds])            # compared: seeds are the model writer's bytes too
     files = [unhex(r.split(' ')[1]) for r in res if r and r.startswith('ok ')]
-    if len(files) < len(seeds):
-        ctx.infra.append(f'{len(seeds) - len(files)} seed bundles could not be written')
+    if len(files) < len(seeds) // 2:        # (random bundles may legitimately be refused by the writer; only a collapse is an infrastructure problem)
+        ctx.infra.append(f'{len(seeds) - len(files)} of {len(seeds)} seed bundles could not be written')
     muts = []
     for f in files:
         muts.append(f)
